@@ -176,6 +176,7 @@ class Stats:
     recheck: dict = field(default_factory=lambda: {"rerun": 0, "mismatch": 0})
     wall_s: float = 0.0
     violating_executions: int = 0
+    capped_depths: list = field(default_factory=list)   # per capped scenario: number of non-default choices fully covered
 
     def merge_from(self, o: "Stats"):
         self.states += o.states
@@ -190,6 +191,7 @@ class Stats:
         self.nontrivial_outcomes |= o.nontrivial_outcomes
         self.violations += o.violations
         self.violating_executions += o.violating_executions
+        self.capped_depths += o.capped_depths
         self.unmergeable |= o.unmergeable
         self.recheck["rerun"] += o.recheck["rerun"]
         self.recheck["mismatch"] += o.recheck["mismatch"]
@@ -210,10 +212,16 @@ def explore(spec, *, bound=None, merge=True, max_execs=None, max_seconds=None, p
     rng = random.Random(seed)
     rerun_candidates = []
     inf = float("inf")
+    # the frontier is processed in generations: generation g holds exactly the choice sequences with g non-default
+    # choices (iterative deviation bounding for free), so a capped search still states what it completed
+    gen = -1
     while frontier:
+        gen += 1
         if max_execs is not None and st.evaluations + len(frontier) > max_execs:
             keep = max(0, max_execs - st.evaluations)
-            st.caps.append(f"max_execs={max_execs} hit (frontier of {len(frontier)} truncated to {keep})")
+            st.caps.append(f"max_execs={max_execs} hit (generation {gen}: frontier of {len(frontier)} truncated to {keep}); "
+                           f"every execution with <= {gen - 1} non-default choices was explored")
+            st.capped_depths.append(gen - 1)
             st.exhaustive = False
             frontier = frontier[:keep]
             if not frontier:
@@ -288,7 +296,9 @@ def explore(spec, *, bound=None, merge=True, max_execs=None, max_seconds=None, p
                 nxt = []
                 break
         if max_seconds is not None and time.time() - t0 > max_seconds and nxt:
-            st.caps.append(f"max_seconds={max_seconds} hit with {len(nxt)} unexplored frontier entries")
+            st.caps.append(f"max_seconds={max_seconds} hit with {len(nxt)} unexplored frontier entries; "
+                           f"every execution with <= {gen} non-default choices was explored")
+            st.capped_depths.append(gen)
             st.exhaustive = False
             break
         frontier = nxt
